@@ -1,8 +1,13 @@
+mod alloc;
 mod engines;
 mod fw;
 mod props;
 
 use fw::*;
+
+#[global_allocator]
+static GLOBAL: alloc::CountingAlloc = alloc::CountingAlloc;
+
 
 
 use std::path::PathBuf;
